@@ -479,8 +479,26 @@ async def scenario(case: dict[str, Any], out: dict[str, Any]) -> None:
               await call_and_compare(root)
           else:
               setup(root, True)
-              async with Context() as child:
+              left_child = anyio.Event()
+              late_done = anyio.Event()
+
+              async def late_call(ctx: Any) -> None:
+                  # a task that was spawned inside the block (its current context is `ctx`) into a task group that outlives it
+                  # calls the function after the block was left: just like explicit lookups there, the call is refused
+                  await left_child.wait()
+                  try:
+                      inc("calls_made_after_the_current_context_was_closed")
+                      await call_and_compare(ctx)
+                  finally:
+                      late_done.set()
+
+              async with create_task_group() as outliving:
+                async with Context() as child:
                   setup(child, False)
+                  if site == "nested" and case.get("n_extra_args", 0) % 2:
+                      outliving.start_soon(late_call, child)
+                  else:
+                      late_done.set()
                   if site == "nested":
                       inc("called_in_nested_context")
                       await call_and_compare(child)
@@ -488,6 +506,8 @@ async def scenario(case: dict[str, Any], out: dict[str, Any]) -> None:
                       inc("called_in_spawned_task")
                       async with create_task_group() as tg:
                           tg.start_soon(call_and_compare, child)
+                left_child.set()
+                await late_done.wait()
     if deco_cm is not None:
         # the decoration context is still open and current in this task; the calls run in a task whose current
         # context is reset so that the root below is a real root
@@ -659,9 +679,10 @@ def plan(tier: str) -> dict[str, Any]:
 
 def gen_case(idx: int, seed: int, tier: str) -> Any:
     rng = case_rng(PROPERTY, seed, idx)
+    # (the rejection matrix runs every 23rd case: coprime with the number of shards, so that it also runs in those started with -O)
     return {"sig": gen_signature(rng), "site": rng.choice(["root", "nested", "nested", "task", "concurrent"]), "explicit_first": rng.random() < 0.5,
             "pass_defaults": rng.random() < 0.5, "pass_kwonly": rng.random() < 0.5, "backend": rng.choice(["asyncio", "trio"]),
-            "rejections": idx % 50 == 0, "decorate_in": rng.choice(["closed", "closed", "open"]), "n_extra_args": rng.choice([1, 2, 3, 5])}
+            "rejections": idx % 23 == 0, "decorate_in": rng.choice(["closed", "closed", "open"]), "n_extra_args": rng.choice([1, 2, 3, 5])}
 
 
 def run_case(case: Any) -> dict[str, Any]:
